@@ -63,6 +63,22 @@ fn universes(tier: Tier) -> Vec<GenParams> {
             }
         }
     }
+    // unusual address forms: IPv4-mapped IPv6 addresses of nameserver hosts
+    for depth in 1..=2usize {
+        for who in 0..depth + 2 {
+            for f in [Family::V6Mapped, Family::DualMapped] {
+                for style in STYLES {
+                    let mut p = GenParams::simple(depth, style, 1);
+                    p.families = vec![Family::Dual; depth + 2];
+                    p.families[who] = f;
+                    out.push(p.clone());
+                    p.families = vec![Family::V6; depth + 2];
+                    p.families[who] = f;
+                    out.push(p);
+                }
+            }
+        }
+    }
     if tier == Tier::Thorough {
         // two nameservers per zone with different families are covered by Dual
         // hosts; add a few two-nameserver universes for the order dimension
@@ -293,7 +309,7 @@ fn run_item(tier: Tier, params: &[GenParams], i: usize, acc: &mut JsonAcc) {
                             ),
                             1,
                         );
-                        if p.families.iter().any(|f| *f != Family::V4) && !res.log.is_empty() {
+                        if p.families.iter().any(|f| f.has_v6()) && !res.log.is_empty() {
                             acc.count("nontrivial", 1);
                         }
                         acc.states.insert(fnv64(
